@@ -705,6 +705,23 @@ func (fc *FnCtx) finish() {
 		}
 		fc.finalVals[name] = envVar{v, et}
 	}
+	// final(idxN): the hidden index cell of range-over-slice loop N at the return (equal to the length
+	// of the ranged slice after a complete traversal, smaller after a break or an early return)
+	for _, li := range fc.loopList {
+		if a := fc.rangeIndexCell(li.ordinal); a != nil {
+			val := func(s *State) *Term {
+				if v, ok := s.cells[a]; ok {
+					return v
+				}
+				return tb.Int(-1)
+			}
+			v := val(fc.retStates[len(fc.retStates)-1])
+			for i := len(fc.retStates) - 2; i >= 0; i-- {
+				v = tb.Ite(fc.retStates[i].reach, val(fc.retStates[i]), v)
+			}
+			fc.finalVals[fmt.Sprintf("idx%d", li.ordinal)] = envVar{v, types.Typ[types.Int]}
+		}
+	}
 	env := fc.exitEnv(exit, vals)
 	for j, c := range fc.con.Ensures {
 		g := fc.transBool(env, c)
